@@ -193,7 +193,19 @@ def make_instance(rng, qual, cls):
     if name in T.ALL_CLASSES:
         cfg = T.config(rng, name)
         if name in T.FILTERS and name != "FilterNonDominated":
-            cfg["conditions"] = [["C0", "gt2" if name == "Filter" else ([1.0] if name in ("FilterIn", "FilterNotIn") else 1.0)]]
+            # one to three conditions, written in any key order, with different values
+            keys = ["C2", "C0", "C1"]
+            rng.shuffle(keys)
+            conds = []
+            for cr in keys[: rng.randint(1, 3)]:
+                if name == "Filter":
+                    conds.append([cr, rng.choice(["gt2", "le3", "ne1", "pos"])])
+                elif name in ("FilterIn", "FilterNotIn"):
+                    conds.append([cr, rng.sample([1.0, 2.0, 3.0, 4.0, 5.0], rng.randint(1, 3))])
+                else:
+                    conds.append([cr, rng.choice([1.0, 1.5, 2.5, 3.5])])
+            cfg["conditions"] = conds
+            cfg["ignore_missing"] = rng.random() < 0.5
         return T.build(cfg)
     for mname in M.SCORE:
         pass
